@@ -88,7 +88,7 @@ def check(tier, replay):
     b3 = load_gen(b3)
     gens["transition cover" + (" (sample)" if quick else "")] = sample(b3, 6000, 2) if quick else b3
     b4, s4, _ = vlib.tlc_generate(work, "Gen_HDir.tla", "Gen_HDir_sim.cfg", work.path("g_sim.ndjson"), mode="sim",
-                                  num=2000 if quick else 40000, depth=25)
+                                  num=2000 if quick else 12000, depth=25)
     gens["simulate depth 24"] = load_gen(b4)
     if not quick:
         b5, s5, _ = vlib.tlc_generate(work, "Gen_HDir.tla", "Gen_HDir_hist6.cfg", work.path("g_hist6.ndjson"), timeout=2400)
